@@ -69,6 +69,16 @@ P = {
          "Seeded histories of valid batches with undo points, undo, stale-list submissions, syncs and repeated undo down to the last sync on in-memory and SQLite replicas; after each step tasks, the unsynced list and the counters are compared with the harness' model state at the undo point, stale lists must be refused without change, synchronized changes must not be undoable, and the operations later sent to the server must be exactly the surviving ones.",
          "Valid sequences only (the property says so). An undo span holding only an undo point may report false.",
          "DESIGN.md §5 C07"),
+ "C08": (True, "E4-differential", "exploration",
+         "differential execution of every backend (through its public constructor) against a chain reference model + end-to-end replica histories under the chain-replay oracle",
+         "Call sequences (add with right / stale / unknown / nil parents, get-child, add-snapshot, get-snapshot; payloads empty, 1 byte, non-UTF-8, zeros, 1.5 MB) are issued one at a time over 1-3 handles of each backend configuration — local on-disk, git local-only, git with a bare remote (clones opened after and, separately, before the remote's first commit), object store over the hook's in-memory store, HTTP client against the harness reference server — and every result is compared with the chain model (version ids learnt from Ok and checked for freshness). Whole replicas additionally sync through each backend and must equal the replay of the accepted versions.",
+         "Local server's add_snapshot is unreachable by design and not called. Object store = CloudServer over the in-memory Service; HTTP server = harness implementation of docs/src/http.md; AWS/GCP adapters and the real sync server are out of reach offline. Git commits are not aged.",
+         "DESIGN.md §5 C08"),
+ "C11": (True, "E3-fault", "fault_enumeration",
+         "fault injection at every internal step of add-version per backend (hook failpoints, per-request object-store faults, a git_path wrapper script failing or killing at each git invocation) followed by a continued history under protocol, chain and convergence oracles",
+         "One replica's sync is interrupted inside the backend: local server — 3 failpoints x {error, process abort in a child}; object store — every request of the sync x {fail before, perform then fail, drop the client}; git local-only and git with a bare remote + 2 clones — every git invocation x {fail before, run then fail, kill process before, run then kill} plus remote-unreachable-from-invocation-k (quick tier: a seeded sample for the remote configuration). Then the backend is reopened, the interrupted replica must sync within two attempts, another replica edits and syncs, and a fresh handle audits: one chain holding every version a client was told was accepted, complete versions only, replicas equal its replay, protocol answers correct.",
+         "Git faults are injected without touching the repo: ServerConfig::Git.git_path points at tools/gitwrap.sh. Liveness in bounded form (2 attempts). Single fault per history.",
+         "DESIGN.md §5 C11"),
  "C09": (True, "E2-schedule", "exploration",
          "runtime monitor under a deterministic scheduler at single object-store-request / list-page granularity + offline history checker over client call/return events and the store's request log",
          "Adders with retry, chain-walking readers and snapshot writers run against the real CloudServer over the hook's in-memory object store; every get/put/del/compare-and-swap and every list page is a scheduling point. Two adders (and adder + snapshot writer) are enumerated exhaustively, two adders + reader by budgeted DFS, 3-4 clients by seeded random schedules. The checker asserts: at most one accepted child per parent, every accepted version on the final chain with its bytes, nothing off-chain ever served, rejections name a version that was latest during the call, 'latest' is the chain tail.",
